@@ -215,6 +215,69 @@ class Spec:
             if not isinstance(st, list):
                 raise OutOfClass("pop of a non-stack")
             return st.pop() if st else None
+        if name == "first":
+            # docs/functions/first.md: the line number of the first sighting of each value; None on that first sighting
+            if not args or any(a["k"] != "header" for a in args):
+                raise OutOfClass("first of a non-header")
+            key = "".join(fmt(self.value(a)) for a in args).strip()
+            nm = next((x for x in q if x not in KNOWN), "first")
+            d = self.vars.setdefault(nm, {})
+            if not isinstance(d, dict):
+                raise OutOfClass("first on a non-dict variable")
+            if d.get(key) is None:
+                d[key] = self.idx
+                return None
+            return d[key]
+        if name == "tally":
+            # docs/functions/tally.md: counts of each value per argument, and of the combination
+            base = next((x for x in q if x not in KNOWN), "tally")
+            vals = []
+            for a in args:
+                if a["k"] == "header":
+                    an = a["name"] if "name" in a else str(a["index"])
+                elif a["k"] == "var":
+                    an = a["name"]
+                else:
+                    raise OutOfClass("tally of a function or term")
+                v = fmt(self.value(a))
+                vals.append(v)
+                if v.strip() != "":
+                    d = self.vars.setdefault(f"{base}_{an}", {})
+                    d[v] = (d.get(v) or 0) + 1
+            if len(args) > 1:
+                combo = "|".join(vals)
+                if combo.strip() != "":
+                    d = self.vars.setdefault(base, {})
+                    d[combo] = (d.get(combo) or 0) + 1
+            return True
+        if name in ("sum", "subtotal"):
+            nm = next((x for x in q if x not in KNOWN), name)
+            x = self.value(args[-1])
+            if is_none(x):
+                num = 0 if name == "sum" else 0.0
+            else:
+                num = as_number(x) if not isinstance(x, bool) else None
+                if num is None:
+                    raise OutOfClass("sum of a non-number (an error, C05)")
+                num = float(num)
+            if name == "sum":
+                if len(args) != 1:
+                    raise OutOfClass("sum arity")
+                cur = self.vars.get(nm, 0)
+                if isinstance(cur, bool) or not isinstance(cur, (int, float)):
+                    raise OutOfClass("sum on a non-number variable")
+                self.vars[nm] = cur + num
+                return self.vars[nm]
+            if len(args) != 2:
+                raise OutOfClass("subtotal arity")
+            cat = self.value(args[0])
+            if cat is None:
+                raise OutOfClass("subtotal by None")
+            d = self.vars.setdefault(nm, {})
+            if not isinstance(d, dict):
+                raise OutOfClass("subtotal on a non-dict variable")
+            d[cat] = (d.get(cat) or 0) + num
+            return d[cat]
         if name == "counter":
             extra = [x for x in q if x not in KNOWN]
             if not extra:
@@ -444,9 +507,14 @@ class Spec:
         if name == "pop":
             v = self.value(n)
             return asbool(v) if "asbool" in q else None
-        if name in ("counter", "concat", "lower", "strip", "add", "subtract", "minus", "multiply", "int"):
+        if name in ("counter", "concat", "lower", "strip", "add", "subtract", "minus", "multiply", "int", "sum", "subtotal"):
             self.value(n)
             return None
+        if name == "first":
+            return self.value(n) is None
+        if name == "tally":
+            self.value(n)
+            return True
         if name == "count" and not args:
             return None
         if name == "put":
